@@ -679,26 +679,6 @@ def _gi(attr):
     return f"getAttrWithFallback(self.ufo.info, '{attr}')"
 
 
-def _minmax_members(which):
-    """builtins.min / max of a non-empty list of ints: the result sits at some index of the list AND bounds every MEMBER
-    (`x in list`) of it.  [Same python builtin as the engine's model, which states the bound per index only; the engine
-    describes a filtered list comprehension by membership (`passing source element in result`), and solvers do not get
-    from seq.contains back to an index.]"""
-
-    def f(ex, st, args, kwargs, node):
-        (v,) = args
-        if kwargs or v.is_py or not isinstance(v.ty, List) or v.ty.elem != INT:
-            return _models.BUILTIN_MODELS["builtins." + which].model(ex, st, args, kwargs, node)
-        s = lift(v)
-        ex.safety(st, z3.Length(s) > 0, "ValueError", node)
-        m, w, x = fresh(INT, which), z3.Int(fresh_name("mw")), z3.Int(fresh_name("mx"))
-        st.assume(z3.And(w >= 0, w < z3.Length(s), s[w] == m))
-        st.assume(z3.ForAll([x], z3.Implies(z3.Contains(s, z3.Unit(x)), (m <= x) if which == "min" else (m >= x))))
-        return Val(INT, m)
-
-    return f
-
-
 def _os2_globals():
     import math
 
@@ -731,7 +711,6 @@ contract(
     canaries={"one-character": f"{_HAS_OS2} and {_OS2}.fsFirstCharIndex == {_OS2}.fsLastCharIndex"},
     modifies=["TTFont.tbl:OS/2"],
     locals={"selection": List(INT), "unicodes": List(INT)},
-    models={"builtins.min": _minmax_members("min"), "builtins.max": _minmax_members("max")},
 )
 
 
